@@ -880,6 +880,39 @@ def r02_9(ctx):
             o["rule"] = "R02.9"
 
 
+def r02_13(ctx):
+    """the string scanners never move the reader backwards: where the position is set absolutely (set_index) from a snapshot
+    of index(), nothing of variable length was consumed between the snapshot and the set (an escape that straddles the end
+    of the block has already taken the reader past it; resetting to `block + LANES` re-reads the escaped byte as text)"""
+    prog = ctx.prog()
+    n = 0
+    ADV = ("eat", "next", "next_n", "skip_escaped_chars", "parse_escaped_char", "parse_escaped_utf8", "skip_string", "skip_one", "skip_number", "backward")
+    for name in ("Parser::skip_string", "Parser::parse_string_raw", "Parser::parse_string_escaped", "Parser::skip_string_unchecked"):
+        f = prog.find(name, required=False)
+        if f is None:
+            continue
+        sets = [(b, t) for b, t in f.calls() if callee_is(t, "Reader::set_index", "set_index")]
+        snaps = [(b, t) for b, t in f.calls() if callee_is(t, "Reader::index") or (callee_is(t, "index") and "Reader" in (t.get("trait") or ""))]
+        advs = [(b, t) for b, t in f.calls() if callee_is(t, *ADV) and ("Reader" in (t.get("trait") or t["callee"]) or "Parser" in t["callee"])]
+        for k, (sb, st) in enumerate(sets, 1):
+            n += 1
+            al = op_local(st["args"][1]) if len(st["args"]) > 1 else None
+            sl, leaves = backward_slice(f, [al]) if al is not None else (set(), [])
+            src = [lf for lf in leaves if lf[0] == "call" and lf[2] in [t for b, t in snaps]]
+            bad = []
+            for lf in src:
+                nb = lf[1]
+                between = (f.reachable_from(nb) & {b for b in range(len(f.blocks)) if sb in f.reachable_from(b)}) - {nb, sb}
+                for ab, at in advs:
+                    if ab in between:
+                        bad.append((at["callee"].rsplit("::", 1)[-1], at["ln"]))
+            ok = not bad
+            ctx.ob("R02.13", f"{short(f.id)}:set_index#{k}", ok, f.loc(st["ln"]),
+                   "the absolute position is set from a snapshot with nothing consumed in between" if ok else
+                   f"the reader is set to a position computed from an earlier index() although {sorted({x[0] for x in bad})} consumed input in between: it can be moved back into the middle of an escape")
+    ctx.ob("R02.13", "absolute-sets-seen", True, "", f"{n} set_index call(s) in the string scanners", nontrivial=False)
+
+
 def r02_s(ctx):
     """clauses of the \\u / surrogate decoding and of the raw-control-byte rejection that the accept-exactly property needs
     (shared with C09)"""
@@ -889,4 +922,4 @@ def r02_s(ctx):
         ctx.include(fn, 'R02.S')
 
 
-RULES = [("R02.1", r02_1), ("R02.2", r02_2), ("R02.3", r02_3), ("R02.4", r02_4), ("R02.5", r02_5), ("R02.6", r02_6), ("R02.7", r02_7), ("R02.8", r02_8), ("R02.9", r02_9), ("R02.10", r02_10), ("R02.11", r02_11), ("R02.12", r02_12), ("R02.S", r02_s)]
+RULES = [("R02.1", r02_1), ("R02.2", r02_2), ("R02.3", r02_3), ("R02.4", r02_4), ("R02.5", r02_5), ("R02.6", r02_6), ("R02.7", r02_7), ("R02.8", r02_8), ("R02.9", r02_9), ("R02.10", r02_10), ("R02.11", r02_11), ("R02.12", r02_12), ("R02.13", r02_13), ("R02.S", r02_s)]
